@@ -45,9 +45,15 @@ def _reuse_obligation(work, res, tier, proofs_ok):
                              "families did not exercise recycled nodes (pool removed from the implementation?)")
 
 
+# evtrace: every single synchronisation action of real concurrent executions of Wait/Signal/Broadcast (event-logging twin
+# of the scratch copy, harness/evinst) replayed step by step on the transition system the theorems are about
+# (lean/Driver/Ev/Cond.lean): each logged action is the model's next synchronisation action of that thread and ENABLED in
+# the model's state; the real notify list (white-box snapshot inside every critical section of mu) equals the model's.
+EVTRACE = dict(harness="evtrace", area="evtrace", name="evtrace-cond", evinst=True, gen_args=["-targets", "cond"])
+
 CHECK = generic(
     "C13",
-    [dict(harness="cond", area="cond")],
+    [dict(harness="cond", area="cond"), EVTRACE],
     skel=["syncx/cond.go:" + _FUNCS],
     pregen=_pregen_checkcopy,
     extra=_reuse_obligation,
@@ -67,7 +73,14 @@ MANIFEST = dict(
           "fault is reachable; at quiescence with no empty-list event #nil = #Signals. The model is tied to the source by skeleton "
           "equalities for all 21 functions of cond.go regenerated on every run, and by a scripted stress harness on the real Cond "
           "(gated Locker + custom contexts pin the expiry/send race) whose every observed quiescent outcome must be reachable in "
-          "the model (model mode) and satisfy the property's counting laws (spec mode). Review additions (Ekit/Props/C13Rev.lean): "
+          "the model (model mode) and satisfy the property's counting laws (spec mode); and by synchronisation-event traces: "
+          "an instrumented twin of the scratch copy (harness/evinst) logs every Lock/Unlock of mu and L, checker load/CAS, once.Do, "
+          "select arm, channel send (performed inside the log mutex, so it precedes the receive it enables) and ctx.Err of "
+          "concurrent Wait/Signal/Broadcast scenarios (2-5 goroutines, contexts cancelled before/while/after the notifier's send, "
+          "recycled pool nodes) in an order that is a legal order of the real execution, with a snapshot of the real list inside "
+          "every critical section of mu, and the model's step function must accept the log action by action (each logged action is "
+          "the model's next synchronisation action of that thread and ENABLED; pool.Get's choice is read off the snapshot; snapshots "
+          "and call results equal the model's) - driver area evtrace. Review additions (Ekit/Props/C13Rev.lean): "
           "complete thread-progress / no-deadlock enabledness (every thread inside a call can move, or is a linked parked waiter with a "
           "live context, or waits for mu / L held by another thread; the holder of mu can always move with its own label); "
           "#nil = #Signals under the hypothesis that at every Signal/hand-off length check some enqueued waiter is still unsignalled "
